@@ -26,7 +26,7 @@ def load_findings():
 TRIGGERS = {
     # D21: no memory-dependence tracking — a program that has both loads and stores
     "ooo-mem": lambda v, f: v in SUPER and (f["loads"] > 0 or f["ld_text"]) and (f["stores"] > 0 or f["st_text"]) and
-                            (os.environ.get("VERIF_OOOMEM_WIDE", "") == "1" or f["ls_line_conflict"] or f["mem_unexec"]),
+                            (os.environ.get("VERIF_OOOMEM_WIDE", "") == "1" or f["line_conflict"] or f["mem_unexec"]),
     # README (fixed in MVP-6.2): on 6.0/6.1 the shadow of a slow (load-fed) conditional branch commits
     "ooo-shadow": lambda v, f: v in ("mvp6-0", "mvp6-1") and f["ld_text"] and f["branches"],
     # D29: two conditional branches in flight while loads keep the older one's neighbourhood busy: the younger
@@ -34,6 +34,9 @@ TRIGGERS = {
     "ooo-2branch": lambda v, f: v in SUPER and v != "mvp6-0" and f["ld_text"] and f["cbr_text"] >= 2,
     # D26: a wrong-path instruction that raises a defined error fails the run (6.0; the renaming variants too)
     "ooo-spec-error": lambda v, f: v in ("mvp6-0", "mvp6-3", "mvp7-0", "mvp7-1", "mvp8-0") and f["err_text"] and f["branches"],
+    # MVP-6.2's transaction map holds ONE uncommitted write per register: a wrong-path write of a register replaces an older,
+    # still uncommitted right-path write of it, and the rollback then drops both (the right-path value is lost)
+    "ooo-txmap": lambda v, f: v == "mvp6-2" and f["ld_text"] and f["cbr_text"] >= 1 and f["static_waw"],
     # D19/D20/D30: renaming admits a second in-flight writer
     "ooo-rename": lambda v, f: v in RENAME and min(f["waw"], f["war"]) <= (WINDOW if f["loads"] == 0 else 10 ** 9),
 }
@@ -193,12 +196,18 @@ def replay(ck, path):
     (ref, meta, rs), = cpu.run_cases([case])
     print("reference:", {k: ref.get(k) for k in ("stop", "steps", "regs")})
     n = 0
+    findings = [k for k in load_findings() if ck.pid in k.get("properties", [k.get("property")])]
+    f = cpu.features(case, ref) if not ref["stop"].startswith("notwf") else None
     for r in rs:
         v = cpu.verdict(ref, r)
         if v not in ("ok", "skip"):
+            kf = classify(findings, ck.pid, r["variant"], f) if f else None
+            if kf:
+                print(f"  KNOWN-FINDING: property={ck.pid} {kf}: {r['variant']}/{r['par']}: {v}")
+                continue
             n += 1
             print(f"  {r['variant']}/{r['par']}: {v}  regs differing (reg: (reference, observed)): {cpu.diff_regs(ref, r) if r['status'] == 'ok' else ''}")
-    print(f"{n} configurations diverge from the reference")
+    print(f"{n} configurations diverge from the reference outside every known finding")
     if n:
         ck.violation(dict(payload, kind="replay"))
     ck.cov["evaluations"] = len(rs)
